@@ -39,10 +39,10 @@ def partial_count(n, gs, count):
 
 def e2e_cases(ctx, r):
     """(case line, kind).  kinds: ring (n,count), sched, bulk, hidden, placed"""
-    cs = [('c07r 8 2 ; S 5*3000', 'ring'), ('c07h 2 2 ; S 1*3000', 'hidden'), ('c07p 8 ; S 0*10', 'placed'),      # the three witnesses first
-          ('c07r 8 2 ; S 0*10', 'ring'), ('c07s 8 ; S 5*3000', 'sched'), ('c07b 8 8 ; S 5*3000', 'bulk'), ('c07r 8 8 ; S 3*3000', 'ring'),
-          ('c07r 16 8 ; S 7*3000', 'ring'), ('c07r 16 16 ; S 5*3000', 'ring'), ('c07s 2 ; S 1*3000', 'sched'), ('c07b 9 5 ; S 4*3000', 'bulk'),
-          ('c07s 1 ; S 0*10', 'sched'), ('c07r 3 3 ; S 2*3000', 'ring')]
+    cs = [('c07r 8 2 ; S 5*300', 'ring'), ('c07h 2 2 ; S 1*300', 'hidden'), ('c07p 8 ; S 0*10', 'placed'),      # the three witnesses first
+          ('c07r 8 2 ; S 0*10', 'ring'), ('c07s 8 ; S 5*300', 'sched'), ('c07b 8 8 ; S 5*300', 'bulk'), ('c07r 8 8 ; S 3*300', 'ring'),
+          ('c07r 16 8 ; S 7*300', 'ring'), ('c07r 16 16 ; S 5*300', 'ring'), ('c07s 2 ; S 1*300', 'sched'), ('c07b 9 5 ; S 4*300', 'bulk'),
+          ('c07s 1 ; S 0*10', 'sched'), ('c07r 3 3 ; S 2*300', 'ring')]
     k = 6 if ctx.quick else 60
     for _ in range(k):
         n = r.choice([1, 2, 3, 8, 9, 16])
@@ -50,13 +50,13 @@ def e2e_cases(ctx, r):
         x = r.random()
         if x < 0.45:
             lo = (n + 3) // 4
-            cs.append(('c07r %d %d ; S %d*3000' % (n, r.randint(lo, n), d), 'ring'))
+            cs.append(('c07r %d %d ; S %d*300' % (n, r.randint(lo, n), d), 'ring'))
         elif x < 0.65:
-            cs.append(('c07s %d ; S %d*3000' % (n, d), 'sched'))
+            cs.append(('c07s %d ; S %d*300' % (n, d), 'sched'))
         elif x < 0.85:
-            cs.append(('c07b %d %d ; S %d*3000' % (n, r.randint(1, 2 * n), d), 'bulk'))
+            cs.append(('c07b %d %d ; S %d*300' % (n, r.randint(1, 2 * n), d), 'bulk'))
         else:
-            cs.append(('c07p %d ; S %d*3000' % (n, d), 'placed'))
+            cs.append(('c07p %d ; S %d*300' % (n, d), 'placed'))
     return cs
 
 
@@ -121,8 +121,8 @@ def run(ctx):
     ctx.phase('native')
 
     # ---- 3. lockstep on the real PoolWakeState / EpochWaiter
-    nraw = 80 if ctx.quick else 2500
-    nproto = 45 if ctx.quick else 1200
+    nraw = 60 if ctx.quick else 2500
+    nproto = 30 if ctx.quick else 1200
     cases = [wc.witness_c07_ring()]
     cases += [wc.gen_raw(r) for _ in range(nraw)]
     for fl in ('ring', 'central', 'mixed'):
